@@ -12,6 +12,7 @@ package main
 
 import (
 	"bytes"
+	"encoding/json"
 	"flag"
 	"fmt"
 	"os"
@@ -717,7 +718,7 @@ func (h *harness) onePlan(it *planItem, res []string, i, perPlan int, serHist ma
 func main() {
 	flag.Parse()
 	seed := vh.SeedFromEnv()
-	rep := vh.NewReport("C09", *tier, seed, "grammar-directed RDF/XML plans (typed / rdf:Description node elements; rdf:about, rdf:ID, rdf:nodeID, anonymous subjects; property attributes incl. rdf:type; literal, typed, empty, rdf:resource, rdf:nodeID, nested, parseType Resource / Collection / Literal property elements; rdf:li and rdf:_n; rdf:ID reification; xml:base and xml:lang on any element; relative references) x 2 random XML serialisations each (prefixes, default namespaces, shadowing, attribute order/quotes, entity and character references, CDATA, comments, PIs, white space) x text-offset capture off/on, plus the 170 W3C RDF/XML test documents; non-trivial = the plan denotes at least one triple")
+	rep := vh.NewReport("C09", *tier, seed, "grammar-directed RDF/XML plans (typed / rdf:Description node elements; rdf:about, rdf:ID, rdf:nodeID, anonymous subjects; property attributes incl. rdf:type; literal, typed, empty, rdf:resource, rdf:nodeID, nested, parseType Resource / Collection / Literal property elements; rdf:li and rdf:_n; rdf:ID reification; xml:base and xml:lang on any element; relative references) x 2 random XML serialisations each (prefixes, default namespaces, shadowing, attribute order/quotes, entity and character references, CDATA, comments, PIs, white space) x text-offset capture off/on, plus random graphs of the fragment written by the Lean writer RX.writeAuto under random switch settings, plus the 169 W3C RDF/XML test documents; non-trivial = the plan / graph has at least one triple")
 	fs, err := vh.LoadFindings(*findings)
 	if err != nil {
 		fmt.Fprintln(os.Stderr, "findings:", err)
@@ -732,9 +733,25 @@ func main() {
 		if err != nil {
 			return
 		}
+		text := string(b)
+		if strings.HasPrefix(strings.TrimSpace(text), "{") {
+			// a replay file written by ./check: the `op` of every recorded case
+			var rf struct {
+				Violations    []vh.Case `json:"violations"`
+				Disagreements []vh.Case `json:"disagreements"`
+			}
+			if json.Unmarshal(b, &rf) == nil {
+				var ls []string
+				for _, c := range append(rf.Violations, rf.Disagreements...) {
+					ls = append(ls, c.Op)
+				}
+				text = strings.Join(ls, "\n")
+			}
+		}
 		var cases []*docCase
 		var lines []string
-		for _, l := range strings.Split(string(b), "\n") {
+		var protoLines []string
+		for _, l := range strings.Split(text, "\n") {
 			f := strings.Fields(l)
 			if len(f) == 3 && f[0] == "doc" {
 				base, e1 := vh.UnX(f[1])
@@ -749,6 +766,8 @@ func main() {
 				c := &docCase{origin: "replay", base: string(base), doc: doc, tree: tree}
 				cases = append(cases, c)
 				lines = append(lines, "rx.denote "+vh.X(base)+" "+tree.Wire())
+			} else if len(f) > 2 && (f[0] == "rx.plan" || f[0] == "rx.write") && !*nomodel {
+				protoLines = append(protoLines, strings.Join(f, " "))
 			}
 		}
 		if !*nomodel && len(lines) > 0 {
@@ -756,6 +775,36 @@ func main() {
 			if err == nil {
 				for i, c := range cases {
 					c.denote = res[i]
+				}
+			}
+		}
+		// protocol lines: the driver renders the tree again; it is serialised a few times and decoded
+		if len(protoLines) > 0 {
+			res, err := d.RunParallel(protoLines)
+			for i, l := range protoLines {
+				if err != nil {
+					break
+				}
+				f := strings.Split(res[i], " | ")
+				ti, di := 1, 2
+				if len(f) != 4 && len(f) != 3 {
+					h.add(vh.Case{Kind: "disagreement", Op: l, Model: res[i], Detail: "driver did not answer"})
+					continue
+				}
+				sx, err := parseSexp(strings.Fields(f[ti]))
+				if err != nil {
+					continue
+				}
+				tree, err := treeOfSexp(sx)
+				if err != nil {
+					continue
+				}
+				base, _ := vh.UnX(strings.Fields(l)[1])
+				r := vh.NewRng(seed)
+				for k := 0; k < 4; k++ {
+					c := &docCase{origin: "replay", base: string(base), tree: tree, denote: f[di], plan: l}
+					c.doc = Serialise(r, tree, k == 0, nil)
+					cases = append(cases, c)
 				}
 			}
 		}
@@ -776,6 +825,7 @@ func main() {
 		}
 		// corpus first
 		h.runCorpus(d)
+		rep.Exhaustive = append(rep.Exhaustive, "every W3C RDF/XML test document shipped in the repository (169: 128 with a published N-Triples result, 41 negative syntax tests), both decoder configurations")
 		plans := 5000 * *scale
 		if *tier == "thorough" {
 			plans = 250000 * *scale
